@@ -69,6 +69,10 @@ def run(chk: Check):
                  dict(seq="iwls_rw_gibbs", model_kind="dict", seed=chk.seed + 6, chains=3,
                       schedule=((2, 6), (1, 3), (4, 6)))]
     traces = [t for r in parallel.run_jobs("harness.comp_driver", "run", jobs) for t in r]
+    # parameters stored with an integer dtype: either refused or coherent
+    ints = [comp_driver.int_param_trace(chk.seed + s) for s in range(2 if chk.quick else 10)]
+    chk.extra["int_param_states_refused"] = sum(1 for t in ints if t["hdr"]["refused"])
+    chk.tv("Trace_Composition.tla", ints, tag="int_params", keyfn=lambda r: f"real:{r.trace['hdr']['model']}:{r.conjunct}")
 
     import random
     _glue(chk, random.Random(900 + chk.seed))
@@ -110,7 +114,10 @@ def _glue(chk, rng):
 
 def replay(chk: Check, data):
     tr = data["replay"]["trace"]
-    if "seq" in tr["hdr"]:
+    if "int_param" in tr["hdr"]:
+        chk.tv("Trace_Composition.tla", [comp_driver.int_param_trace(**tr["hdr"]["int_param"])], tag="int_params",
+               keyfn=lambda r: f"real:{r.trace['hdr']['model']}:{r.conjunct}")
+    elif "seq" in tr["hdr"]:
         traces = comp_driver.run(**{k: (tuple(tuple(x) for x in v) if k == "schedule" else v)
                                     for k, v in tr["hdr"]["scenario"].items()})
         chk.tv("Trace_Composition.tla", traces, tag="real_kernels",
